@@ -30,7 +30,7 @@ def c01(res):
 
 
 def c02(res):
-    worker_families(res, ["MC_RecvCoreQuick", "MC_RecvWrapReal"], ["MC_RecvCoreFull", "MC_RecvDup", "MC_RecvWrapRealDeep"])
+    worker_families(res, ["MC_RecvCoreQuick", "MC_RecvPrefill", "MC_RecvWrapReal"], ["MC_RecvCoreFull", "MC_RecvPrefill", "MC_RecvDup", "MC_RecvWrapRealDeep"])
 
 
 def c07(res):
@@ -220,7 +220,13 @@ def c06(res):
     q = res.tier == "quick"
     vectors = [{"op": op, "name": list(n), "opts": [list(o) for o in os_]} for n in POLICY_NAMES for op in (1, 2)
                for os_ in POLICY_OPTS]
-    configs = [c for c in ALL_CONFIGS if c["clean"]][::2] + [ALL_CONFIGS[1]] if q else ALL_CONFIGS
+    pick = lambda **kw: next(c for c in ALL_CONFIGS if all(c[k] == v for k, v in kw.items()))
+    configs = [pick(shared=True, single=False, ro=False, ow=False, clean=True),
+               pick(shared=True, single=False, ro=False, ow=True, clean=True),
+               pick(shared=False, single=True, ro=False, ow=True, clean=False),
+               pick(shared=False, single=False, ro=True, ow=True, clean=True),
+               pick(shared=True, single=True, ro=False, ow=False, clean=True),
+               pick(shared=False, single=True, ro=True, ow=False, clean=False)] if q else ALL_CONFIGS
     if not q:
         # order effects: every ordered pair of rows for two representative configurations
         pairs = []
@@ -239,6 +245,76 @@ def opts_requests_for(sizes):
         opts = [(o["o"], "".join(str(d) for d in o["v"])) for o in v["opts"]]
         return [NET.rq(1, b"b", opts), NET.rq(1, b"a/a", opts), NET.rq(2, b"new", opts)]
     return f
+
+
+def wait_once_policy(seconds):
+    """conformant, except that after the first window the client stays silent once for `seconds`"""
+    def policy(c, burst):
+        if not getattr(c, "waited", False) and c.expected > 1:
+            c.waited = True
+            return [("wait", seconds), ("ack", c.expected - 1)]
+        return [("ack", c.expected - 1)]
+    return policy
+
+
+def c09_behaviour(res):
+    """The transfer that follows an OACK must be a lone transfer of Transfer.tla with exactly the
+    acknowledged values: block length, blocks per window, ACK cadence, retransmission interval."""
+    q = res.tier == "quick"
+    optsets = [[("blksize", 8), ("windowsize", 3), ("timeout", 1)], [("blksize", 512), ("windowsize", 2)],
+               [("windowsize", 4)], [("blksize", 1024)], [("timeout", 2)], [],
+               [("BLKSIZE", 16), ("unknown", 5), ("WindowSize", 2)], [("tsize", 0), ("blksize", 9)]]
+    if not q:
+        optsets += [[("blksize", 65464)], [("blksize", 8), ("windowsize", 64)], [("windowsize", 65535), ("blksize", 8)],
+                    [("timeout", 255), ("blksize", 10)]]
+    for single in (False, True):
+        sb, srv = with_server("c09b-%s" % ("s" if single else "m"), shared=True, single=single, ow=True)
+        events = []
+        slow = []
+        try:
+            for k, opts in enumerate(optsets):
+                blk = next((v for o, v in opts if o.lower() == "blksize"), 512)
+                for nb, last in ((7, 5 if blk > 5 else 4), (4, 0)):
+                    content = X.make_file(nb, blk, last)
+                    name = "c09_%d_%d.bin" % (k, nb)
+                    open(os.path.join(sb.send, name), "wb").write(content)
+                    d = X.Download(srv, "dl-%d-%d" % (k, nb), name.encode(), content, opts=opts)
+                    u = X.Upload(srv, "ul-%d-%d" % (k, nb), ("up_" + name).encode(), nb, last, opts=opts,
+                                 target=os.path.join(sb.recv, "up_" + name))
+                    events += X.run_clients(srv, [d, u])
+            # retransmission interval, one-sided: never earlier than the acknowledged timeout
+            for tmo in ([1] if q else [1, 2]):
+                content = X.make_file(5, 8, 5)
+                open(os.path.join(sb.send, "c09_wait.bin"), "wb").write(content)
+                d = X.Download(srv, "dl-wait-%d" % tmo, b"c09_wait.bin", content,
+                               opts=[("blksize", 8), ("timeout", tmo)], policy=wait_once_policy(tmo))
+                events += X.run_clients(srv, [d])
+                slow.append((tmo, getattr(d, "retransmit_after", None)))
+        finally:
+            drop_server(sb, srv)
+        tag = "negotiated-transfers-%s" % ("single" if single else "multi")
+        probe = C.Result("C09", res.tier)
+        devs = judge_net_trace(probe, events, tag, module="Trace_Transfer", sample_kind="cfg")
+        res.traces += probe.traces
+        res.events += probe.events
+        res.legs += probe.legs
+        res.samples += probe.samples[:1]
+        for sig, desc, rep in probe.violations:
+            res.add_violation(sig, desc, rep)
+        for label, cnt in probe.drift.items():
+            # in this scenario every deviation means: the transfer does not use the acknowledged values
+            res.add_violation("NegotiatedTransfer:%s|%s" % (label, tag), "C09: transfer after negotiation deviates (%s) x%d in %s" % (label, cnt, tag),
+                              {"kind": "net-transfers", "label": label})
+        for tmo, seen in slow:
+            res.legs.append({"family": tag + "-retransmit", "timeout_s": tmo, "retransmitted_after_s": seen})
+            if seen is not None and seen < tmo - 0.05:
+                res.add_violation("EarlyRetransmission|%s" % tag, "C09: window retransmitted after %.2f s, acknowledged timeout %d s" % (seen, tmo),
+                                  {"kind": "timing", "timeout": tmo, "seen": seen})
+
+
+def c09(res):
+    c09_first_reply(res)
+    c09_behaviour(res)
 
 
 def c09_first_reply(res):
@@ -483,6 +559,10 @@ def upload_histories(single, ow, clean, rng, n_random):
                     os.remove(p)
             return h
         scripted = [
+            # over a longer file that was there before (overwrite mode only): completion replaces it
+            # entirely, a kept partial file is a prefix of what was sent
+            [("pre", "f", 4), ("wrq", "c1", "f"), ("block", 1), ("block", 1), ("disk", "f")],
+            [("pre", "f", 4), ("wrq", "c1", "f"), ("block", 1), ("disk", "f"), ("fail", 1), ("disk", "f")],
             # a lone upload that fails half way / completes
             [("wrq", "c1", "f"), ("block", 1), ("disk", "f"), ("fail", 1), ("disk", "f")],
             [("wrq", "c1", "f"), ("block", 1), ("block", 1), ("disk", "f")],
@@ -510,7 +590,14 @@ def upload_histories(single, ow, clean, rng, n_random):
                         steps.append(("disk", rng.choice(["f", "g"])))
                 steps += [("disk", "f"), ("disk", "g")]
             for st in steps:
-                if st[0] == "wrq":
+                if st[0] == "pre":
+                    if ow:
+                        with open(os.path.join(sb.recv, st[1]), "wb") as f:
+                            f.write(b"".join(X.payload(9000 + i, 512) for i in range(1, st[2] + 1)))
+                        h.events.append({"e": "pre", "name": st[1], "k": st[2]})
+                    else:
+                        break
+                elif st[0] == "wrq":
                     h.wrq(st[1], st[2])
                 elif st[0] in ("block", "fail"):
                     if st[1] <= len(h.workers) and h.workers[st[1] - 1]["state"] == "open":
@@ -788,11 +875,11 @@ def c18(res):
                         "fill() after end of file yields further empty pieces (recorded behaviour; the property constrains the bytes handed out)"]
 
 
-CHECKS = {"C14": c14, "C05": c05, "C12": c12, "C03": c03, "C06": c06, "C09": c09_first_reply, "C17": c17, "C10": codec, "C11": codec, "C18": c18, "C01": c01, "C02": c02, "C04": c04, "C07": c07, "C08": c08, "C13": c13, "C15": c15, "C16": c16}
+CHECKS = {"C14": c14, "C05": c05, "C12": c12, "C03": c03, "C06": c06, "C09": c09, "C17": c17, "C10": codec, "C11": codec, "C18": c18, "C01": c01, "C02": c02, "C04": c04, "C07": c07, "C08": c08, "C13": c13, "C15": c15, "C16": c16}
 
 
 QUICK_FAMILIES = [
-    ("MC_TransferOpen", ["MC_SendCoreQuick", "MC_RecvCoreQuick", "MC_SendBigWShort", "MC_RecvBigW", "MC_RecvDevfull",
+    ("MC_TransferOpen", ["MC_SendCoreQuick", "MC_RecvCoreQuick", "MC_SendBigWShort", "MC_RecvBigW", "MC_RecvDevfull", "MC_RecvPrefill",
                          "MC_SendWrapSmall", "MC_RecvWrapSmall", "MC_SendWrapReal", "MC_RecvWrapReal",
                          "MC_SendDup", "MC_RecvDup"]),
     ("MC_Window", ["MC_Window_ReadersQuick", "MC_Window_MixedQuick"]),
